@@ -34,20 +34,20 @@ let client_s (st : state) (i : int) (c : client) : string =
   if life = 2 then Printf.sprintf " | c%d GONE" i
   else if life <> 0 then Printf.sprintf " | c%d CLOSED" i
   else
-  Printf.sprintf " | c%d M=[%s] C=[%s] d=%d,%d R=[%s] f=%s%s%s%s%s%s%s q=%d,%d sy=%d df=%d,%d sc=%s b=%d sz=%dx%d P=%d I=%s"
+  Printf.sprintf " | c%d M=[%s] C=[%s] d=%d,%d R=[%s] f=%s%s%s%s%s%s%s q=%d,%d sy=%d df=%d,%d sc=%s b=%d:%d sz=%dx%d P=%d I=%s"
     i (rgn_s c.cM) (rgn_s c.cC) (iz c.cDX) (iz c.cDY) (rgn_s c.cR)
     (b2s c.cUseCopy) (b2s c.cShape) (b2s c.cCurChanged) (b2s c.cReady) (b2s c.cUseNewFB) (b2s c.cUseExt)
     (b2s c.cNewFBPending) (iz c.cReqChange) (iz c.cLastErr) (iz c.cSliceY)
     (iz c.cExt.xDefS) (iz c.cExt.xDefU)
     (match c.cExt.xScaled with Some (w, h) -> Printf.sprintf "%dx%d" (iz w) (iz h) | None -> "-")
-    (iz c.cBpp) (iz c.cPW) (iz c.cPH)
+    (iz (fmt_bpp c.cBpp)) (iz (fmt_bits c.cBpp)) (iz c.cPW) (iz c.cPH)
     (pic_hash c.cPic) (b2s (inv_client_b st c))
 
 let observe (opname : string) (st : state) (msgs : (nat * wmsg) list) : unit =
   let b = Buffer.create 256 in
   Buffer.add_string b (Printf.sprintf "o %s |%s" opname (wire_s msgs));
   List.iteri (fun i c -> Buffer.add_string b (client_s st i c)) st.sClients;
-  Buffer.add_string b (Printf.sprintf " | F=%d S=%dx%dx%d T=%d X=[%s]" (pic_hash st.sFB) (iz st.sW) (iz st.sH) (iz st.sBpp)
+  Buffer.add_string b (Printf.sprintf " | F=%d S=%dx%dx%d B=%d T=%d X=[%s]" (pic_hash st.sFB) (iz st.sW) (iz st.sH) (iz (fmt_bpp st.sBpp)) (iz (fmt_bits st.sBpp))
                          (iz st.sExt.xDefer)
                          (String.concat ";" (List.map (fun (w, h) -> Printf.sprintf "%dx%d" (iz w) (iz h)) st.sExt.xChain)));
   print_endline (Buffer.contents b)
@@ -56,6 +56,10 @@ let rec rects_of (l : string list) : rect list =
   match l with
   | a :: b :: c :: d :: t -> (((zi a, zi b), zi c), zi d) :: rects_of t
   | _ -> []
+
+(* format code of UpdateDefs.v: bytes per pixel + 8 * bits per sample, 0 bits = the default of the depth *)
+let fmt_code (bpp : int) (bits : int) : z =
+  if bpp = 1 || (bpp = 2 && bits = 5) || (bpp = 4 && bits = 8) then z_of_int bpp else z_of_int (bpp + 8 * bits)
 
 let parse_op (ws : string list) : op option =
   let bi s = int_of_string s <> 0 in
@@ -68,13 +72,15 @@ let parse_op (ws : string list) : op option =
   | "docopyrgn" :: dx :: dy :: _ :: rs -> Some (OpDoCopyRegion (rects_of rs, zi dx, zi dy))
   | ["docopyrect"; a; b; c; d; dx; dy] -> Some (OpDoCopyRect (zi a, zi b, zi c, zi d, zi dx, zi dy))
   | ["req"; c; i; x; y; w; h] -> Some (OpRequest (ni c, bi i, zi x, zi y, zi w, zi h))
-  | ["setenc"; c; a; b; d; e] -> Some (OpSetEncodings (ni c, bi a, bi b, bi d, bi e))
+  | "setenc" :: c :: a :: b :: d :: e :: _ -> Some (OpSetEncodings (ni c, bi a, bi b, bi d, bi e))  (* a 6th word = the pixel encoding: not the model's business *)
   | "setcursor" :: "0" :: _ -> Some (OpSetCursor None)
   | ["setcursor"; _; xh; yh; w; h] -> Some (OpSetCursor (Some (((zi xh, zi yh), zi w), zi h)))
   | ["knobs"; m; s] -> Some (OpKnobs (zi m, zi s))
   | ["tick"; c] -> Some (OpTick (ni c))
   | ["send"; c] -> Some (OpSend (ni c))
   | ["newfb"; w; h; bpp; seed] -> Some (OpNewFB (zi w, zi h, zi bpp, zi seed))
+  | ["newfb"; w; h; bpp; seed; bits] -> Some (OpNewFB (zi w, zi h, fmt_code (int_of_string bpp) (int_of_string bits), zi seed))
+  | "drawpal" :: a :: b :: c :: d :: pat :: _ :: cols -> Some (OpDrawPal (zi a, zi b, zi c, zi d, zi pat, List.map zi cols))
   | ["setdesktopsize"; c; w; h; ns; hr] -> Some (OpSetDesktopSize (ni c, zi w, zi h, zi ns, zi hr))
   | ["time"; s; u] -> Some (OpTime (zi s, zi u))
   | ["defer"; ms] -> Some (OpDefer (zi ms))
